@@ -101,6 +101,7 @@ def c14(tier):
     if tier == 'quick':
         specs = [recv_spec('recv-N5', tags, N=5, auto_pong='sym'),
                  recv_spec('ping-length-sweep', tags + ['C01'], ping_sweep=True, suffix='810161', xval_stride=7),
+                 recv_spec('frag-text-L2-ping1', tags + ['C01'], family=dict(opcode=1, L=2, max_frags=3, ctrl_len=1), cuts='bytewise'),
                  recv_spec('recv-N4-writefault', tags, N=4, first_opcodes=[9, 1, 2, 0],
                            fault=dict(ops=['sendall'], kinds=['oserror', 'exception'], max=1, skip={'sendall': 1}))]
     else:
@@ -334,7 +335,7 @@ def c09(tier):
 def c13(tier):
     tags = ['C13']
     specs = []
-    for mech in ['break', 'raise', 'gen.close', 'with']:
+    for mech in ['break', 'raise', 'gen.close', 'with', 'with-held']:
         specs.append(life_spec('abandon-%s' % mech.replace('.', '-'), tags,
                                'consumer shape "%s"; server: <=3 frames from {Text, Ping, fragmented Binary, Close}; poll=0 so housekeeping Polls '
                                'are yielded from the top of the loop; the application abandons at a solver-chosen event (optionally after '
@@ -485,10 +486,20 @@ def c18(tier):
           '%d consecutive loop iterations from an arbitrary pre-state: blocks only when k=q=0, otherwise consumes >=1 byte in zero virtual time, '
           'count in range, no byte lost' % (2 if q else 4), K=2 if q else 4),
     ]
+    N = 4 if q else 6
+    specs += [
+        recv_spec('deliver-same-cycle-N%d' % N, ['C18'], N=N, cuts='bytewise'),
+        recv_spec('deliver-same-cycle-frag', ['C18'], family=dict(opcode=1, L=2, max_frags=3, ctrl_len=1), cuts='bytewise'),
+        recv_spec('deliver-same-cycle-allcuts', ['C18'], N=4 if q else 5, cuts='sym'),
+    ]
+    for s_ in specs[1:]:
+        s_.what = ('real parser pipeline (no stubbed feed): ' + s_.what + '; obligation: at every read boundary, every message whose last byte has '
+                   'arrived has been delivered, and its Pong written, before the loop waits on the selector again')
     return run_property('C18', tier, specs, 'model_checking', 'available data is drained without waiting', ENV_ASSUMPTIONS + [
         'REDUCED SCOPE: only the loop\'s own decision logic is decided (inductive step on an abstract transport); kernel selector semantics '
         '(select.poll/kqueue/select), real ssl.SSLSocket buffering and loopback TCP/TLS runs are executions, not solver queries, and are outside',
-        'WebSocket.feed is replaced by "consume everything" (justified by C01: every byte handed to feed is parsed in that call)',
+        'in the counter abstraction WebSocket.feed is replaced by "consume everything"; that every byte handed to feed is parsed and delivered in the same cycle '
+        'is itself checked on the real pipeline by the deliver-same-cycle explorations (bounded stream length)',
         'TLS recv_into clamps the requested length to the buffer (as _ssl does); q is arbitrary (over-approximates real TLS, where q <= one record)'],
         ['lomond.selectors.SelectorBase.wait', 'lomond.selectors.PollSelector.__init__/wait_readable', 'lomond.session.WebsocketSession.run (loop body)',
          'lomond.session.WebsocketSession._recv'])
@@ -547,6 +558,9 @@ def c11(tier):
     specs = [
         sched_spec('two-senders', tags, [['send_text'], ['send_binary']], 2, W),
         sched_spec('sender-vs-loop', tags, [['send_text'], ['pong', 'auto_ping']], 2, W + ' (event loop pong/ping vs application send)'),
+        sched_spec('three-messages-compressed', tags, [['send_text', 'send_text'], ['send_binary']], 1,
+                   W + '; one thread sends two compressed messages with another thread\'s message possibly between them (shared context)',
+                   compress=dict(client_no_takeover=False)),
         sched_spec('two-senders-compressed', tags, [['send_text'], ['send_binary']], 1,
                    W + '; with permessage-deflate and context takeover the reference peer must inflate in wire order',
                    compress=dict(client_no_takeover=False)),
